@@ -1,6 +1,6 @@
 (* C03  Mean/peak direction and spread follow their definitions and rotate with the sea.
    Only statements; every proof is [exact lemma].  Model: OSU.Model.DirStats (on OSU.Model.Directional). *)
-From Coq Require Import Reals List Arith Lra Lia.
+From Coq Require Import Reals List Arith Lra Lia Sorting.Sorted.
 From OSU.Lib Require Import Cyclic Fmod Atan2.
 From OSU.Model Require Import Directional DirStats.
 From OSU.Proofs Require Import Directional DirStats.
@@ -54,6 +54,43 @@ Proof. exact spread_range. Qed.
 
 Theorem spread_bound_value : sqrt 2 * 180 / PI < 81.03.
 Proof. exact spread_bound_value. Qed.
+
+(* band averages of physically valid moments are physically valid: |(A,B)| <= 1, hence the
+   band-mean spread exists and lies in [0, sqrt2*180/pi] (frequencies non-decreasing, e >= 0) *)
+Theorem mean_moments_in_disc : forall fmin fmax f e a b A B,
+  StronglySorted Rle f ->
+  length e = length f -> length a = length f -> length b = length f ->
+  Forall nonneg_or_nan e -> Forall2 in_disc a b ->
+  weighted fmin fmax f e a = Some A -> weighted fmin fmax f e b = Some B ->
+  A * A + B * B <= 1.
+Proof. exact mean_moments_in_disc. Qed.
+
+Theorem mean_spread_range : forall fmin fmax f e a b A B,
+  StronglySorted Rle f ->
+  length e = length f -> length a = length f -> length b = length f ->
+  Forall nonneg_or_nan e -> Forall2 in_disc a b ->
+  weighted fmin fmax f e a = Some A -> weighted fmin fmax f e b = Some B ->
+  exists v, mean_spread fmin fmax f e a b = Some v /\ 0 <= v <= sqrt 2 * 180 / PI.
+Proof. exact mean_spread_range. Qed.
+
+(* every non-negative 2D spectrum on non-negative steps has valid moments at every frequency
+   and valid band means in every band *)
+Theorem moments_2d_in_disc : forall M (s : spec2d M),
+  Forall (fun row => length row = length (th2 s)) (E2 s) ->
+  Forall (fun row => forall v, In (Some v) row -> 0 <= v) (E2 s) ->
+  (forall x, In x (dstep (th2 s)) -> 0 <= x) ->
+  Forall nonneg_or_nan (map Some (e_2d s)) /\ Forall2 in_disc (a1_2d s) (b1_2d s) /\ Forall2 in_disc (a2_2d s) (b2_2d s).
+Proof. exact moments_2d_in_disc. Qed.
+
+Theorem ranges_2d : forall M (s : spec2d M) fmin fmax A B,
+  StronglySorted Rle (f2 s) -> length (E2 s) = length (f2 s) ->
+  Forall (fun row => length row = length (th2 s)) (E2 s) ->
+  Forall (fun row => forall v, In (Some v) row -> 0 <= v) (E2 s) ->
+  (forall x, In x (dstep (th2 s)) -> 0 <= x) ->
+  b_mean_a1 (bulk_2d s fmin fmax) = Some A -> b_mean_b1 (bulk_2d s fmin fmax) = Some B ->
+  A * A + B * B <= 1 /\
+  exists v, b_mean_spread (bulk_2d s fmin fmax) = Some v /\ 0 <= v <= sqrt 2 * 180 / PI.
+Proof. exact ranges_2d. Qed.
 
 (* equal cosine and sine is congruence modulo 360 *)
 Theorem same_dir_is_congruence : forall d d', same_dir d d' -> exists m : Z, d' = d + 360 * IZR m.
